@@ -594,7 +594,7 @@ def case_strategy(draw, tier):
 
 
 def plan(tier):
-  n = 6000 if tier == "quick" else 150000
+  n = 6000 if tier == "quick" else 400000
   return [
     Enum("cut1", lambda: enum_cut1(tier), shards=16),
     Enum("cut2", lambda: enum_cut2(tier), shards=16),
